@@ -16,6 +16,7 @@ META = {
     'note': 'Trusted: TLC, hook H1, the QUIT signal path (the same the interface uses). Suspension in the middle of a statement (INPUT, PLAY waits) is outside the property (statement boundaries only). '
             'Multi-byte alterations that also repair the CRC cannot be detected by the format and are not attempted.',
 }
+META['text'] += ' Traces are validated in bounded batches.'
 
 FILE_PROGS = [
     # sequential + random files, strings, arrays, screen positions
